@@ -92,9 +92,10 @@ func semanticTokensForTraversal(traversal hcl.Traversal) []lang.SemanticToken {
 				},
 			}
 
-			if idxRange.End.Byte <= idxRange.Start.Byte {
+			if idxRange.End.Byte <= idxRange.Start.Byte || idxRange.End.Column < 1 {
 				// an index step still being typed ("[0" without the closing
-				// bracket) leaves nothing between the assumed brackets
+				// bracket) leaves nothing between the assumed brackets,
+				// or ends at the beginning of the following line
 				continue
 			}
 
